@@ -29,6 +29,17 @@ type Mutation struct {
 	Trunc int
 	Ops   []Op
 	Note  string // human readable description (class, field, value); not part of identity
+	// Splices are length-changing replacements (structured edits: a field of a
+	// container re-encoded with its lengths, offsets and checksums fixed up).
+	// Offsets refer to the unmutated seed; splices do not overlap each other.
+	// They are applied after Ops.
+	Splices []Splice
+}
+
+// Splice replaces Del bytes at Off of the seed with New (any length).
+type Splice struct {
+	Off, Del int
+	New      []byte
 }
 
 func Identity() Mutation { return Mutation{Trunc: -1, Note: "identity"} }
@@ -48,16 +59,41 @@ func (m Mutation) Apply(seed []byte) []byte {
 		}
 		copy(out[op.Off:], op.New)
 	}
-	return out
+	if len(m.Splices) == 0 {
+		return out
+	}
+	sp := append([]Splice(nil), m.Splices...)
+	sort.SliceStable(sp, func(i, j int) bool { return sp[i].Off < sp[j].Off })
+	res := make([]byte, 0, len(out)+m.Delta())
+	pos := 0
+	for _, x := range sp {
+		if x.Off < pos || x.Off > len(out) || x.Del < 0 || x.Off+x.Del > len(out) {
+			continue // overlapping or out of range: ignored, like an Op outside the seed
+		}
+		res = append(res, out[pos:x.Off]...)
+		res = append(res, x.New...)
+		pos = x.Off + x.Del
+	}
+	return append(res, out[pos:]...)
+}
+
+// Delta is the change of length the splices make.
+func (m Mutation) Delta() int {
+	d := 0
+	for _, x := range m.Splices {
+		d += len(x.New) - x.Del
+	}
+	return d
 }
 
 // Spec is the compact, parseable identity of a mutation: "I", "T<len>" or
-// "R<off>:<hex>[,R<off>:<hex>...]".
+// "R<off>:<hex>[,R<off>:<hex>...]"; a structured edit adds
+// "S<off>:<deleted>:<hex>" parts (see Splice).
 func (m Mutation) Spec() string {
 	if m.Trunc >= 0 {
 		return "T" + strconv.Itoa(m.Trunc)
 	}
-	if len(m.Ops) == 0 {
+	if len(m.Ops) == 0 && len(m.Splices) == 0 {
 		return "I"
 	}
 	var b strings.Builder
@@ -70,11 +106,42 @@ func (m Mutation) Spec() string {
 		b.WriteByte(':')
 		b.WriteString(hex.EncodeToString(op.New))
 	}
+	for i, x := range m.Splices {
+		if i > 0 || len(m.Ops) > 0 {
+			b.WriteByte(',')
+		}
+		b.WriteByte('S')
+		b.WriteString(strconv.Itoa(x.Off))
+		b.WriteByte(':')
+		b.WriteString(strconv.Itoa(x.Del))
+		b.WriteByte(':')
+		b.WriteString(hex.EncodeToString(x.New))
+	}
 	return b.String()
+}
+
+// LabelledSpec is Spec followed by "#" and the Note (made single-line): the
+// form in which a structured edit travels, so that a report can say which
+// field of which layer was edited. ParseSpec accepts both forms.
+func (m Mutation) LabelledSpec() string {
+	if m.Note == "" {
+		return m.Spec()
+	}
+	note := strings.Map(func(r rune) rune {
+		if r < 0x20 || r == 0x7f {
+			return ' '
+		}
+		return r
+	}, m.Note)
+	return m.Spec() + "#" + note
 }
 
 func ParseSpec(s string) (Mutation, error) {
 	m := Mutation{Trunc: -1}
+	if i := strings.IndexByte(s, '#'); i >= 0 {
+		m.Note = s[i+1:]
+		s = s[:i]
+	}
 	switch {
 	case s == "I":
 		return m, nil
@@ -87,6 +154,26 @@ func ParseSpec(s string) (Mutation, error) {
 		return m, nil
 	}
 	for _, part := range strings.Split(s, ",") {
+		if strings.HasPrefix(part, "S") {
+			f := strings.SplitN(part[1:], ":", 3)
+			if len(f) != 3 {
+				return m, fmt.Errorf("bad mutation spec %q", s)
+			}
+			off, err := strconv.Atoi(f[0])
+			if err != nil {
+				return m, err
+			}
+			del, err := strconv.Atoi(f[1])
+			if err != nil {
+				return m, err
+			}
+			nb, err := hex.DecodeString(f[2])
+			if err != nil {
+				return m, err
+			}
+			m.Splices = append(m.Splices, Splice{off, del, nb})
+			continue
+		}
 		if !strings.HasPrefix(part, "R") {
 			return m, fmt.Errorf("bad mutation spec %q", s)
 		}
@@ -134,11 +221,32 @@ func normalize(seed []byte, m Mutation) (Mutation, bool) {
 			ops = append(ops, Op{off, append([]byte(nil), nb...)})
 		}
 	}
-	if len(ops) == 0 {
+	// splices: the bytes a replacement shares with what it replaces are trimmed
+	// from both ends, a splice that changes nothing is dropped
+	var sps []Splice
+	for _, x := range m.Splices {
+		if x.Off < 0 || x.Del < 0 || x.Off+x.Del > len(seed) {
+			continue
+		}
+		off, del, nb := x.Off, x.Del, x.New
+		for del > 0 && len(nb) > 0 && nb[0] == seed[off] {
+			nb, off, del = nb[1:], off+1, del-1
+		}
+		for del > 0 && len(nb) > 0 && nb[len(nb)-1] == seed[off+del-1] {
+			nb, del = nb[:len(nb)-1], del-1
+		}
+		if del == 0 && len(nb) == 0 {
+			continue
+		}
+		sps = append(sps, Splice{off, del, append([]byte(nil), nb...)})
+	}
+	if len(ops) == 0 && len(sps) == 0 {
 		return m, false
 	}
 	sort.Slice(ops, func(i, j int) bool { return ops[i].Off < ops[j].Off })
+	sort.SliceStable(sps, func(i, j int) bool { return sps[i].Off < sps[j].Off })
 	m.Ops = ops
+	m.Splices = sps
 	return m, true
 }
 
